@@ -20,7 +20,8 @@ def WellFramed (rq : Req) : Prop :=
 
 /-- what the primitives can do (trusted: OS / pyarrow / Python behaviour; the harness measures it on every generated case) -/
 def PrimitivesSane (T : Tables) (rq : Req) : Prop :=
-  (∀ e, rq.attach = .raises e → isA T e .OSError = true ∨ isA T e .ValueError = true) ∧
+  (∀ e, rq.shmOpen = .raises e → isA T e .OSError = true ∨ isA T e .ValueError = true) ∧
+  (∀ e, rq.allocInit = .raises e → isA T e .ValueError = true ∨ isA T e .StructError = true) ∧
   (∀ e, rq.resolve = .raises e → isA T e .ValueError = true) ∧ rq.resolve ≠ .blocks ∧
   (∀ e, rq.release = .raises e → isA T e .ValueError = true) ∧
   (∀ e, rq.asPy = .raises e → isA T e .Exception_ = true) ∧
